@@ -144,6 +144,19 @@ def bodySchema : String → Option Fmt
                 p .tagged])
   | "ListPartitionReassignmentsRequest" =>
     some (seqL [p .i32, .arr .compact (seqL [p .cstr, p .ci32arr, p .tagged]), p .tagged])
+  | "MetadataResponse" =>
+    some (seqL [Fmt.gate 3 (p .i32),
+      .arr .i32 (seqL [p .i32, p .str, p .i32, Fmt.gate 1 (p .nstr)]),
+      Fmt.gate 2 (p .nstr), Fmt.gate 1 (p .i32),
+      .arr .i32 (seqL [p .i16, p .str, Fmt.gate 1 (p .bool),
+        .arr .i32 (seqL [p .i16, p .i32, p .i32, p .i32arr, p .i32arr, Fmt.gate 5 (p .i32arr)])])])
+  | "OffsetCommitRequest" =>
+    some (seqL [p .str, Fmt.gate 1 (seqL [p .i32, p .str]), Fmt.gate 2 (p .i64),
+      .arr .i32 (seqL [p .str, .arr .i32 (seqL [p .i32, p .i64, .ite 1 1 (p .i64) .unit, p .str])])])
+  | "FetchRequest" =>
+    some (seqL [p .i32, p .i32, p .i32, Fmt.gate 3 (p .i32), Fmt.gate 4 (p .i8), Fmt.gate 7 (seqL [p .i32, p .i32]),
+      .arr .i32 (seqL [p .str, .arr .i32 (seqL [p .i32, Fmt.gate 9 (p .i32), p .i64, Fmt.gate 5 (p .i64), p .i32])]),
+      Fmt.gate 7 (.arr .i32 (seqL [p .str, .arr .i32 (p .i32)])), Fmt.gate 11 (p .str)])
   | "Record" => some recordFmt
   | _ => none
 
